@@ -20,8 +20,8 @@ sqrt enclosures), then
    dearer than the geometric optimum ⇒ the known kind `not-minimal` (graph pruned for Euclidean shortest paths).
  * A* model tie (classes that dump `as` / `oa` / `oh` / `pops`): the abstract search loop of Model/AStar.lean (Part 1:
    PENDING / DONE keyed on (vertex, previous vertex), in-place improvement of a queued node, `ANodeCmp` order, time
-   stamps; optimal under a consistent heuristic by Props/C05AStar.search_optimal) is run on the polyline problem of
-   the dumped graph — edges in visList order, the skip rules of `search()` (edge we came along, foreign connector
+   stamps) is run on the polyline problem of Model/PolyAStar.lean (optimal under the per-graph consistency check by
+   Props/C04AStar.poly_search_optimal) built from the dumped graph — edges in visList order, the skip rules of `search()` (edge we came along, foreign connector
    end points, `validateBendPoint`), step cost getDist + penalty · bends of `cost()`, h = euclideanDist to the
    target as dumped — and its DONE list is compared with the expansion order of the real search (the library's own
    DebugHandler tap: the prevNode chain of every popped node, from which g and f are recomputed here).  A difference
@@ -32,7 +32,7 @@ A rejected certificate is a DIVERGE (the harness oracle, not libavoid, is then w
 import Driver.Proto
 import AdaptaVerif.Check.Potential
 import AdaptaVerif.Check.OwnGraph
-import AdaptaVerif.Model.AStar
+import AdaptaVerif.Model.PolyAStar
 namespace Driver.C04
 open Driver AdaptaVerif.Num
 open AdaptaVerif.Model.Geometry (Pt area2)
@@ -116,22 +116,6 @@ def ownOptimum (c : Case) (id : Nat) (penalty : Rat) (src dst : Pt) : Except Str
   | some r => pure r
   | none => throw "own-graph certificate rejected (potential infeasible on the own search space, or witness not an admissible route of it)"
 
-/-- the polyline search problem of connector (s, t) on the dumped graph, for the abstract A* loop of Model/AStar.lean -/
-def polyProblem (ovs : Array OV) (adj : Array (List (Nat × Rat))) (hs : Array Rat) (penalty : Rat) (s t : Nat) :
-    AdaptaVerif.Model.AStar.Problem :=
-  let S := mkSpace ovs [] penalty
-  { src := s, tar := t, h0 := hs.getD s 0, eps := AdaptaVerif.Model.AStar.epsDouble,
-    succs := fun pv v => (adj.getD v []).map fun (wd : Nat × Rat) =>
-      let w := wd.1
-      if pv == some w then none                                            -- the segment we just arrived along
-      else if (ovs[w]!).prev.isNone && w != t then none                      -- a connector end point other than the target
-      else if wd.2 == 0 then none
-      else match pv with
-        | none => some { w := w, c := wd.2, h := if w == t then 0 else hs.getD w 0 }
-        | some p =>
-          if !S.ok p v w then none                                           -- validateBendPoint
-          else some { w := w, c := wd.2 + penalty * (S.bend p v w : Nat), h := if w == t then 0 else hs.getD w 0 } }
-
 /-- run the A* model for connector `id` and compare with the real search; `none` = equal (or nothing dumped) -/
 def astarTie (c : Case) (id : Nat) (penalty : Rat) : Option String × List (String × Nat) := Id.run do
   let some al := (c.get "as").find? (fun w => nat! w[0]! == id) | return (none, [])
@@ -179,12 +163,15 @@ def astarTie (c : Case) (id : Nat) (penalty : Rat) : Option String × List (Stri
   -- (consistent heuristic; `ANodeCmp` treats differences up to 1e-7 as ties)
   let fsI := implR.map (·.2.2)
   let mono := (fsI.zip (fsI.drop 1)).all fun (a, b) => decide (a ≤ b + tol)
-  let P := polyProblem ovs adj hs penalty s t
-  let fuel := 2 * (adj.foldl (fun a l => a + l.length) 0) + 4
-  match AdaptaVerif.Model.AStar.search P fuel (AdaptaVerif.Model.AStar.init P) with
+  let G : AdaptaVerif.Model.PolyAStar.PolyGraph :=
+    { S := S0, adj := adj, hs := hs, corner := fun w => (ovs[w]!).prev.isSome, src := s, tar := t,
+      eps := AdaptaVerif.Model.AStar.epsDouble }
+  match AdaptaVerif.Model.PolyAStar.run G with
   | .found b done =>
     let model : List (Nat × Option Nat) := done.map fun nd => (nd.v, nd.pv)
-    let st := [("astar.run", 1), ("astar.explored", done.length)]
+    -- hypothesis of Props/C04AStar.poly_search_optimal on the dumped doubles (statistics only: a rounded triangle
+    -- inequality can fail by an ulp on collinear triples)
+    let st := [("astar.run", 1), ("astar.explored", done.length), ("astar.heuristic-consistent", if AdaptaVerif.Model.PolyAStar.consistent G then 1 else 0)]
     let shv := fun (v : Nat) (pv : Option Nat) => s!"{ptStr (ovs[v]!).p} via {match pv with | some p => ptStr (ovs[p]!).p | none => "-"}"
     if !mono then
       let k := ((fsI.zip (fsI.drop 1)).takeWhile fun (a, b) => decide (a ≤ b + tol)).length
